@@ -103,4 +103,140 @@ example : S.denote (.only (.rename (.direct demoLib none) [("a", "c")]) ["a", "c
     some [("c", .num (.int 1))] := by
   simp [S.denote, exportsOf, demoState, demoLib, libLookup, S.renameTarget]
 
+/-! ## 3. several sets: the union; independence of the order of the export lists -/
+
+/-- An import declaration with several sets (each over an instantiated or native library) defines,
+in the target frame `ρ`, exactly the bindings of the union map of the sets' denotations — for a
+name bound by several sets the LAST set wins — and leaves every other name of that frame, every
+other frame, all parent links, the vectors and the output untouched; of the rest of the state only
+the instance cache may grow. -/
+theorem import_union (sets : List ImportSet) (fuel : Nat) (st : State) (ρ : Nat) (bs : S.Bindings)
+    (hfuel : fuelNeededAll sets + 1 ≤ fuel) (hip : ∀ s ∈ sets, S.leaf s ∉ st.inProgress)
+    (hd : S.denoteAll sets (exportsOf st) = some bs) (hρ : ρ < st.store.frames.size) :
+    ∃ st', evalImport fuel st sets ρ = (.ok (), st') ∧
+      (∀ x, st'.store.binding ρ x = S.override (S.asMap bs) (st.store.binding ρ) x) ∧
+      (∀ i, i ≠ ρ → st'.store.frames[i]? = st.store.frames[i]?) ∧
+      (∀ i : Nat, st'.store.frames[i]?.map Frame.parent = st.store.frames[i]?.map Frame.parent) ∧
+      st'.store.frames.size = st.store.frames.size ∧ st'.store.vecs = st.store.vecs ∧
+      st'.store.out = st.store.out ∧
+      st' = { st with store := st'.store, instances := st'.instances } ∧
+      (∀ n, exportsOf st' n = exportsOf st n) := by
+  obtain ⟨fuel, rfl⟩ : ∃ k, fuel = k + 1 := ⟨fuel - 1, by omega⟩
+  obtain ⟨st1, h1, sp⟩ := importSets_spec sets fuel st [] bs (by omega) hip hd
+  have hsame : st1 = { st with instances := st1.instances } := sp.same
+  have hstore : st1.store = st.store := by rw [hsame]
+  have hdef := Lib.foldl_define_spec ρ (bs.foldl (fun a p => assocInsert a p.1 p.2) []) st1.store
+  refine ⟨_, by rw [evalImport, h1], ?_, ?_, ?_, ?_, ?_, ?_, ?_, ?_⟩
+  · intro x
+    simp only []
+    rw [hdef.bindings (by rw [hstore]; exact hρ) x, hstore]
+    simp only [S.override]
+    rw [Lib.asMap_eq_lookup (Lib.foldl_assocInsert_nodup bs [] (by simp)), Lib.foldl_assocInsert_lookup]
+    cases S.asMap bs x <;> rfl
+  · intro i hi; simp only []; rw [hdef.other_frames i hi, hstore]
+  · intro i; simp only []; rw [hdef.parent i, hstore]
+  · simp only []; rw [hdef.size, hstore]
+  · simp only []; rw [hdef.vecs, hstore]
+  · simp only []; rw [hdef.out, hstore]
+  · simp only []; rw [hsame]
+  · exact sp.exports
+
+example : ∃ st', evalImport 7 { demoState with store := Store.root }
+    [.direct demoLib none, .rename (.only (.direct demoLib none) ["a"]) [("a", "b")]] 0 = (.ok (), st') ∧
+    st'.store.binding 0 "b" = some (.num (.int 1)) := by
+  obtain ⟨st', h, hb, -⟩ := import_union
+    [.direct demoLib none, .rename (.only (.direct demoLib none) ["a"]) [("a", "b")]] 7
+    { demoState with store := Store.root } 0
+    [("a", .num (.int 1)), ("b", .num (.int 2)), ("b", .num (.int 1))]
+    (by simp [fuelNeededAll, S.fuelNeeded]) (by simp [demoState])
+    (by simp [S.denoteAll, S.denote, exportsOf, demoState, demoLib, libLookup, S.renameTarget])
+    (by simp [Store.root])
+  refine ⟨st', h, ?_⟩
+  rw [hb]
+  simp [S.override, S.asMap]
+
+/-- "The same on every run": the iteration order of the `HashMap`s that hold a library's exports
+enters only as the ORDER of its export list. Let two states have the same store and give every
+library the same exports up to a permutation. If every set of the declaration is admissible (no
+set binds a name twice), the import defines the same bindings in frame `ρ` in both — as finite
+maps, name by name — and every lookup from every frame agrees afterwards. -/
+theorem import_deterministic (sets : List ImportSet) (fuel : Nat) (st₁ st₂ : State) (ρ : Nat)
+    (bs : S.Bindings) (hfuel : fuelNeededAll sets + 1 ≤ fuel)
+    (hip₁ : ∀ s ∈ sets, S.leaf s ∉ st₁.inProgress) (hip₂ : ∀ s ∈ sets, S.leaf s ∉ st₂.inProgress)
+    (hstore : st₂.store = st₁.store) (hperm : S.PermExports (exportsOf st₁) (exportsOf st₂))
+    (hd : S.denoteAll sets (exportsOf st₁) = some bs)
+    (hadm : S.AdmissibleAll sets (exportsOf st₁)) (hρ : ρ < st₁.store.frames.size) :
+    ∃ st₁' st₂', evalImport fuel st₁ sets ρ = (.ok (), st₁') ∧ evalImport fuel st₂ sets ρ = (.ok (), st₂') ∧
+      (∀ i x, st₂'.store.binding i x = st₁'.store.binding i x) ∧
+      (∀ ρ' x, st₂'.store.lookup ρ' x = st₁'.store.lookup ρ' x) := by
+  have hp := denoteAll_perm hperm sets hadm
+  rw [hd] at hp
+  cases hd₂ : S.denoteAll sets (exportsOf st₂) with
+  | none => simp [hd₂] at hp
+  | some bs₂ =>
+    simp only [hd₂] at hp
+    obtain ⟨st₁', e₁, b₁, o₁, p₁, -⟩ := import_union sets fuel st₁ ρ bs hfuel hip₁ hd hρ
+    obtain ⟨st₂', e₂, b₂, o₂, p₂, -⟩ := import_union sets fuel st₂ ρ bs₂ hfuel hip₂ hd₂ (by rw [hstore]; exact hρ)
+    have hbind : ∀ i x, st₂'.store.binding i x = st₁'.store.binding i x := by
+      intro i x
+      by_cases hi : i = ρ
+      · subst hi
+        rw [b₁ x, b₂ x, hstore]
+        simp only [S.override, hp x]
+      · simp only [Store.binding, o₁ i hi, o₂ i hi, hstore]
+    refine ⟨st₁', st₂', e₁, e₂, hbind, fun ρ' x => ?_⟩
+    apply Lib.lookup_congr_chain
+    · apply Store.chain_congr
+      intro i
+      rw [p₂ i, p₁ i, hstore]
+    · intro i _; exact hbind i x
+
+/-- the same library with its exports listed in the other order -/
+def demoState' : State :=
+  { factories := [(demoLib, .native [("b", .num (.int 2)), ("a", .num (.int 1))])] }
+
+example : ∃ st₁' st₂',
+    evalImport 5 { demoState with store := Store.root } [.prefix (.direct demoLib none) "m."] 0 = (.ok (), st₁') ∧
+    evalImport 5 { demoState' with store := Store.root } [.prefix (.direct demoLib none) "m."] 0 = (.ok (), st₂') ∧
+    ∀ ρ' x, st₂'.store.lookup ρ' x = st₁'.store.lookup ρ' x := by
+  have demo_perm : S.PermExports (exportsOf { demoState with store := Store.root })
+      (exportsOf { demoState' with store := Store.root }) := by
+    intro n
+    by_cases h : demoLib = n
+    · subst h
+      simp only [exportsOf, demoState, demoState', libLookup, if_true, S.PermOpt]
+      exact List.Perm.swap _ _ _
+    · simp [exportsOf, demoState, demoState', libLookup, h, S.PermOpt]
+  obtain ⟨a, b, h1, h2, -, h3⟩ := import_deterministic [.prefix (.direct demoLib none) "m."] 5
+    { demoState with store := Store.root } { demoState' with store := Store.root } 0
+    [("m.a", .num (.int 1)), ("m.b", .num (.int 2))]
+    (by simp [fuelNeededAll, S.fuelNeeded]) (by simp [demoState]) (by simp [demoState']) rfl demo_perm
+    (by simp [S.denoteAll, S.denote, exportsOf, demoState, demoLib, libLookup])
+    (by
+      intro s hs bs hbs
+      simp only [List.mem_singleton] at hs
+      subst hs
+      simp [S.denote, exportsOf, demoState, demoLib, libLookup] at hbs
+      subst hbs
+      simp [S.Admissible])
+    (by simp [Store.root])
+  exact ⟨a, b, h1, h2, h3⟩
+
+/-- Admissibility cannot be dropped: `(rename (m) (a c) (b c))` binds `c` twice, and which binding
+survives depends on the order of the export list — in the Rust code, on `HashMap` iteration order.
+(Finding: for such a declaration the outcome is NOT the same on every run.) -/
+theorem order_matters_without_admissible :
+    ∃ (s : ImportSet) (ex ex' : LibName → Option S.Bindings) (a b : S.Bindings),
+      S.PermExports ex ex' ∧ S.denote s ex = some a ∧ S.denote s ex' = some b ∧
+      ¬ S.Admissible a ∧ S.asMap a "c" ≠ S.asMap b "c" := by
+  refine ⟨.rename (.direct demoLib none) [("a", "c"), ("b", "c")],
+    fun _ => some [("a", .num (.int 1)), ("b", .num (.int 2))],
+    fun _ => some [("b", .num (.int 2)), ("a", .num (.int 1))],
+    [("c", .num (.int 1)), ("c", .num (.int 2))], [("c", .num (.int 2)), ("c", .num (.int 1))],
+    fun _ => List.Perm.swap _ _ _, ?_, ?_, ?_, ?_⟩
+  · simp [S.denote, S.renameTarget, List.lookup]
+  · simp [S.denote, S.renameTarget, List.lookup]
+  · simp [S.Admissible]
+  · simp [S.asMap]
+
 end Ruschm.C12
